@@ -70,9 +70,18 @@ fn split_number(body: &str) -> (bool, &str, &str) {
 
 pub fn decimal_literal(text: &str) -> Lit {
     let (neg, ip, fp) = split_number(&text[1..]);
-    if fp.len() > 28 {
-        return Lit::Unspecified("more than 28 fractional digits".into());
-    }
+    // "rounded only beyond the type's 28 fractional digits": the rounding mode is not stated, so a
+    // literal with further non-zero digits is left open; when everything beyond the 28th digit is
+    // a zero nothing is rounded and the value (with scale 28) is fixed
+    let fp = if fp.len() > 28 {
+        if fp[28..].bytes().all(|b| b == b'0') {
+            &fp[..28]
+        } else {
+            return Lit::Unspecified("more than 28 fractional digits".into());
+        }
+    } else {
+        fp
+    };
     let mut mant: u128 = 0;
     for b in ip.bytes().chain(fp.bytes()) {
         match mant.checked_mul(10).and_then(|m| m.checked_add((b - b'0') as u128)) {
